@@ -16,9 +16,13 @@ both results are propagated; the expected sequence number is ack_seq.wrapping_ad
 discharged (dominating comparison, width bound, constant, audited invariant - see C16 for the scheme); on the pinned tree the sites
 `window_size - unacknowledged` and `level -= 1` were not dischargeable (fixed by 899af41);
 (c) we never overrun the peer's window: on the data path SendWindow::post_send is cut by the false edge of is_full; the handshake
-request path does not call post_send; SendWindow::post_send has exactly those callers.
+request path does not call post_send; SendWindow::post_send has exactly those callers;
+(d) acknowledgement bookkeeping: RecvWindow::post_send re-gains the window and clears ack_level only over the is_some() edge of
+pending_ack(), the predicate that also feeds BtpHdr::set_ack in prep_tx_data; in (a) each RingBuf::push (which drops the oldest bytes
+when over-full) is cut by its own free() test - >= 2 for the length prefix, >= payload.len() for the payload - with no other push
+between the test and the push.
 """
-CLAUSES = ['a: integrity checks precede every mutation of the windows', 'b: receive-path panic surface discharged', 'c: sending is gated by the peer window']
+CLAUSES = ['a: integrity checks precede every mutation of the windows', 'b: receive-path panic surface discharged', 'c: sending is gated by the peer window', 'd: the receive window is re-gained only when an ACK was sent; every ring-buffer push has a fresh free-space test']
 NOT_DECIDED = ['exactly-once, in-order delivery between well-behaved ends', 'acknowledgement deadline timing', 'reassembly equality']
 MIN_OBLIGATIONS = {'q': 30, 'd': 30, 'r': 30}
 
@@ -53,9 +57,43 @@ def check(R):
                 e |= te
             return e
         R.cut('P2', ra, 'mutate the receive window / push into the reassembly buffer', muts, 'the receive window is not exhausted (level > 0)', level_nonzero)
-        pushes = call_bbs(ra, 'utils::storage::ringbuf::RingBuf::push')
-        R.cut('P2', ra, 'push payload into the ring buffer', [pushes[-1]] if pushes else [], 'the payload fits (buf.free() >= payload.len())',
-              lambda: _lt_false(ra, lambda s: any(c.endswith('RingBuf::free') for c in src_calls(s)), lambda s: any(c.endswith('::len') for c in src_calls(s))))
+        # RingBuf::push silently drops the OLDEST bytes when over-full: every push needs its own, fresh free() test
+        pushes = ra.calls('utils::storage::ringbuf::RingBuf::push')
+        R.floor('RingBuf::push sites in RecvWindow::accept_incoming', len(pushes), 2)
+        is_free = lambda s_: any(c.endswith('RingBuf::free') for c in src_calls(s_))
+        guards = {}
+        for t in pushes:
+            src = prims.sources(ra, t.d['a'][1])
+            if any(c.endswith('::to_le_bytes') for c in src_calls(src)):
+                # the 2-byte SDU length prefix; `size_of::<T>()` counts as >= 2 when every size_of in the function is of a type of at least two bytes
+                so = [c.d.get('fa', '') for c in ra.calls('core::mem::size_of')]
+                wide = bool(so) and all(x.endswith(('::<u16>', '::<u32>', '::<u64>', '::<usize>', '::<i16>', '::<i32>', '::<i64>')) for x in so)
+
+                def edges():
+                    e = set()
+                    for op, keep_true, ok in (('Ge', True, lambda c: c >= 2), ('Gt', True, lambda c: c >= 1), ('Lt', False, lambda c: c >= 2), ('Le', False, lambda c: c >= 1)):
+                        for bb, te, fe in prims.cmp_guard_edges(ra, op, is_free, lambda s_: any(isinstance(v, int) and ok(v) for v in src_consts(s_)) or (wide and 'core::mem::size_of' in src_calls(s_)), symmetric=False):
+                            e |= te if keep_true else fe
+                    return e
+                what, gd = 'push the 2-byte SDU length prefix into the ring buffer', 'the prefix fits (buf.free() >= 2)'
+            else:
+                def edges():
+                    return _lt_false(ra, is_free, lambda s_: any(c.endswith('::len') for c in src_calls(s_)))
+                what, gd = 'push the payload into the ring buffer', 'the payload fits (buf.free() >= payload.len())'
+            try:
+                guards[t.bb] = edges()
+            except Exception:
+                guards[t.bb] = set()
+            R.cut('P2', ra, what, [t.bb], gd, guards[t.bb])
+        for t in pushes:
+            stale = []
+            for q in pushes:
+                if q.bb == t.bb or not guards.get(t.bb):
+                    continue
+                after_guard = prims.reach(ra, tuple({e[1] for e in guards[t.bb]}), cut_blocks={t.bb})
+                if q.bb in after_guard and t.bb in prims.reach(ra, tuple(ra.succ[q.bb])):
+                    stale.append(ra.where(q.bb))
+            R.expect('P3', ra.fn, f'the free-space test for the push at line {t.line} is not followed by another push before it', not stale, 'fresh', f'another push at {stale} lies between the free() test and this push: the test is stale', ra.where(t.bb))
         ci = R.body(S + 'RecvWindow::check_data_integrity')
         seq = [t for t in ci.calls('core::num::<impl u8>::wrapping_add')] + [t for b in F.nested(ci.fn) for t in b.calls('core::num::<impl u8>::wrapping_add')]
         okseq = False
@@ -92,6 +130,21 @@ def check(R):
               lambda: R.call_guard(pd, S + 'SendWindow::accept_incoming'))
         R.cut('P2', pd, 'touch the windows', call_bbs(pd, S + 'RecvWindow::accept_incoming', S + 'SendWindow::accept_incoming'), 'the segment header parsed',
               lambda: R.call_guard(pd, S + 'packet::BtpHdr::from'))
+
+    # ---- d --------------------------------------------------------------------
+    with R.clause('d'):
+        # acknowledgement bookkeeping: the receive window is re-gained (level += ack_level; ack_level = 0) only when the segment just sent
+        # carried the acknowledgement, i.e. under the same predicate (pending_ack) that puts the ACK into the outgoing header
+        ps = R.body(S + 'RecvWindow::post_send')
+        muts = _muts(ps, (S + 'RecvWindow',))
+        R.floor('state mutations in RecvWindow::post_send', len(muts), 1)
+        R.cut('P2', ps, 're-gain the receive window / clear ack_level', muts, 'an acknowledgement was pending (pending_ack().is_some())', lambda: R.call_guard(ps, S + 'RecvWindow::pending_ack'))
+        pt = R.body(S + 'Session::prep_tx_data')
+        R.floor('RecvWindow::post_send in prep_tx_data', len(pt.calls(S + 'RecvWindow::post_send')), 1)
+        acks = [t for t in pt.calls() if t.d.get('f', '').endswith('BtpHdr::set_ack')]
+        R.floor('BtpHdr::set_ack in prep_tx_data', len(acks), 1)
+        R.expect('P10', pt.fn, 'the acknowledgement put into the outgoing header is RecvWindow::pending_ack()', all(S + 'RecvWindow::pending_ack' in src_calls(prims.sources(pt, t.d['a'][1])) for t in acks),
+                 'set_ack(pending_ack())', 'the header ACK no longer derives from pending_ack(): header and window bookkeeping can disagree')
 
     # ---- b --------------------------------------------------------------------
     with R.clause('b'):
